@@ -31,14 +31,14 @@ var w3cBlock = map[string]struct {
 }
 
 var w3cDigest = map[string]string{
-	"http://www.w3.org/2000/09/xmldsig#sha1":      "crypto/sha1.New",
-	"http://www.w3.org/2000/09/xmldsig#sha256":    "crypto/sha256.New", // (the identifier this library uses; xmlenc#sha256 in the standard)
-	"http://www.w3.org/2001/04/xmlenc#sha256":     "crypto/sha256.New",
-	"http://www.w3.org/2000/09/xmldsig#sha512":    "crypto/sha512.New",
-	"http://www.w3.org/2001/04/xmlenc#sha512":     "crypto/sha512.New",
+	"http://www.w3.org/2000/09/xmldsig#sha1":        "crypto/sha1.New",
+	"http://www.w3.org/2000/09/xmldsig#sha256":      "crypto/sha256.New", // (the identifier this library uses; xmlenc#sha256 in the standard)
+	"http://www.w3.org/2001/04/xmlenc#sha256":       "crypto/sha256.New",
+	"http://www.w3.org/2000/09/xmldsig#sha512":      "crypto/sha512.New",
+	"http://www.w3.org/2001/04/xmlenc#sha512":       "crypto/sha512.New",
 	"http://www.w3.org/2001/04/xmldsig-more#sha384": "crypto/sha512.New384",
-	"http://www.w3.org/2000/09/xmldsig#ripemd160": "golang.org/x/crypto/ripemd160.New",
-	"http://www.w3.org/2001/04/xmlenc#ripemd160":  "golang.org/x/crypto/ripemd160.New",
+	"http://www.w3.org/2000/09/xmldsig#ripemd160":   "golang.org/x/crypto/ripemd160.New",
+	"http://www.w3.org/2001/04/xmlenc#ripemd160":    "golang.org/x/crypto/ripemd160.New",
 }
 
 var w3cKeyTransport = map[string][2]string{
